@@ -140,6 +140,10 @@ F = [
   "Exp reported Overflow for arguments a hair above a multiple of 23 (the working precision was derived from |x| rounded to a float64): Exp(3611.0000000000000000001) P=41 Emax=100000 returned Infinity",
   {"C12": [ar("exp", ctx(41, 100000, -100000, "down"), dec("36110000000000000000001", -19)), ar("exp", ctx(41, 100000, -100000, "down"), dec("98900000000000004", -14)),
            ar("exp", ctx(5, 1000, -1000, "half_even"), dec("11500000000000000000001", -20))]}),
+ ("D46", "Ln stops its power series when every further term is negligible",
+  "Ln (and Log10, Pow through it) failed with 'exponent out of range' for arguments within about 1E-33322 of 1, whose logarithm is far inside the range: Ln(1+1E-33322) at Precision 16 (found when a generator class for a seeded hang in that loop was added)",
+  {"C12": [ar("ln", ctx(16, 100000, -100000, "half_even"), dec("1" + "0" * 33321 + "1", -33322)),
+           ar("log10", ctx(1, 100000, -100000, "down"), dec("9" * 45000, -45000))]}),
  ("D45", "Cbrt reports Subnormal for an exact subnormal root",
   "Cbrt's exact-cube path returned no condition at all: Cbrt(1E-3) at Precision 2, MinExponent 0 returned 0.1 (below 10^MinExponent) without Subnormal (remarked by a seeding sub-agent reading the code; C02 now derives the conditions of exact cube roots)",
   {"C02": [ar("cbrt", ctx(2, 2, 0, "down"), dec(1, -3), note="composite"), ar("cbrt", ctx(9, 9, 0, "down"), dec(10, -4), note="composite")]}),
